@@ -54,10 +54,10 @@ def run_demo(demo, d, seeddir):
         rc, out = sh("cc -O1 -g -I%s/include -I%s %s %s/libeav.a -lidn2 %s -o %s/demo" % (d, d, path, d, flags, work), cwd=work)
         if rc != 0:
             return None, "demo does not compile: " + out[-800:]
-        rc, out = sh([work + "/demo"], cwd=work, env=env, timeout=600)
+        rc, out = sh([work + "/demo"], cwd=d, env=env, timeout=600)
     else:
         os.chmod(path, 0o755)
-        rc, out = sh(["sh", path], cwd=work, env=env, timeout=900)
+        rc, out = sh(["sh", path], cwd=d, env=env, timeout=900)
     return rc, out[-800:]
 
 
